@@ -50,8 +50,12 @@ import (
 )
 
 const (
-	maxEvents = 300
+	maxEvents = 300 // package tests and driver rounds
 	maxCids   = 20
+	// traces of the root package's cluster tests (real multi-peer clusters, -npins rootPins) are longer
+	rootMaxEvents = 1500
+	rootMaxCids   = 60 // the CIDS constant of OpTrackerTrace*.cfg has 60 names
+	rootPins      = "25"
 )
 
 var repoPkgs = []string{
@@ -103,7 +107,7 @@ func split(raw []rec) (map[traceKey][]rec, []traceKey, error) {
 }
 
 // abstract renames the CIDs of one trace to c1.. and cuts it at the caps.
-func abstract(evs []rec) (out []rec, cids int, cut bool) {
+func abstract(evs []rec, maxEvents, maxCids int) (out []rec, cids int, cut bool) {
 	names := map[string]string{}
 	for _, r := range evs {
 		if len(out) >= maxEvents {
@@ -180,7 +184,11 @@ type writer struct {
 }
 
 func (w *writer) trace(src string, key traceKey, evs []rec) traceStats {
-	abs, ncids, cut := abstract(evs)
+	me, mc := maxEvents, maxCids
+	if strings.HasPrefix(src, "root:") {
+		me, mc = rootMaxEvents, rootMaxCids
+	}
+	abs, ncids, cut := abstract(evs, me, mc)
 	w.n++
 	hdr := rec{"ev": "reset", "run": w.n, "src": src, "pid": key.pid, "tr": key.tr, "cids": ncids, "cut": cut}
 	b, _ := json.Marshal(hdr)
@@ -260,6 +268,146 @@ func repoTests(res *hx.Result, w *writer, work string) {
 	res.Set("optrace_repo_events", nev)
 	res.Set("optrace_repo_traces_api_level", api)
 	res.Set("optrace_repo_traces_tracker_level", trk)
+}
+
+// ------------------------------------------------ (a') the root package's cluster tests
+
+// Real multi-peer clusters (5 peers, mock IPFS daemons over HTTP, crdt and raft): pins, unpins, recover,
+// re-allocation when peers go down or are removed, adds. Every peer's tracker is one trace. A test that
+// fails, times out or cannot be built is noted, never a verdict: whatever it executed is validated.
+var rootQuick = []string{"TestClustersRecoverAll", "TestClustersRecoverLocal", "TestClustersStatusAllWithErrors"}
+
+var rootThorough = []string{
+	"TestClustersPin", "TestClustersPinUpdate", "TestClustersPinDirect", "TestClustersStatusAll", "TestClustersStatusAllWithErrors",
+	"TestClustersRecoverLocal", "TestClustersRecover", "TestClustersRecoverAll",
+	"TestClustersReplicationOverall", "TestClustersReplicationFactorMax", "TestClustersReplicationFactorMaxLower",
+	"TestClustersReplicationFactorInBetween", "TestClustersReplicationFactorMin", "TestClustersReplicationMinMaxNoRealloc",
+	"TestClustersReplicationMinMaxRealloc", "TestClustersReplicationRealloc", "TestClustersReplicationNotEnoughPeers",
+	"TestClustersRebalanceOnPeerDown", "TestClustersPeerRemove", "TestClustersPeerRemoveSelf", "TestClustersPeerRemoveLeader",
+	"TestClustersPeerRemoveReallocsPins", "TestAdd", "TestAddWithUserAllocations", "TestAddPeerDown", "TestAddOnePeerFails",
+	"TestAddAllPeersFail",
+}
+
+type rootJob struct {
+	test, consensus, raw, cwd string
+	note                      string
+	secs                      float64
+}
+
+func readRaw(path string) ([]rec, string) {
+	var recs []rec
+	bad := 0
+	hx.EachLine(path, func(b []byte) error {
+		var r rec
+		if err := json.Unmarshal(b, &r); err != nil {
+			bad++ // a line cut short by a killed process
+			return nil
+		}
+		if _, ok := r["tr"]; ok { // the other packages' default observers write to the same file
+			recs = append(recs, r)
+		}
+		return nil
+	})
+	if bad > 0 {
+		return recs, fmt.Sprintf("%d unparsable lines", bad)
+	}
+	return recs, ""
+}
+
+func rootTests(res *hx.Result, w *writer, work, mode string) {
+	notes := []string{}
+	defer func() { res.Set("optrace_root_notes", notes) }()
+	mod := filepath.Join(work, "go.mod")
+	bin := filepath.Join(work, "optrace_root.test")
+	build := exec.Command("go", "test", "-c", "-modfile="+mod, "-tags", "verif", "-vet=off", "-o", bin, "github.com/ipfs/ipfs-cluster")
+	build.Dir = filepath.Join(os.Getenv("VERIF_DIR"), "harness")
+	if out, err := build.CombinedOutput(); err != nil {
+		notes = append(notes, "root package test binary not built: "+tail(string(out), 300))
+		return
+	}
+	tests, consensuses, par, limit := rootQuick, []string{"crdt"}, 3, 25*time.Second
+	if mode == "thorough" {
+		tests, consensuses, par, limit = rootThorough, []string{"crdt", "raft"}, hx.EnvInt("OPTRACE_ROOT_PAR", 4), 240*time.Second
+	}
+	if n := hx.EnvInt("OPTRACE_ROOT_LIMIT", 0); n > 0 {
+		limit = time.Duration(n) * time.Second
+	}
+	var jobs []*rootJob
+	for _, c := range consensuses {
+		for _, t := range tests {
+			jobs = append(jobs, &rootJob{test: t, consensus: c})
+		}
+	}
+	sem := make(chan struct{}, par)
+	var wg sync.WaitGroup
+	for _, j := range jobs {
+		wg.Add(1)
+		sem <- struct{}{}
+		go func(j *rootJob) {
+			defer wg.Done()
+			defer func() { <-sem }()
+			j.cwd = filepath.Join(work, "optrace_root_"+j.consensus+"_"+j.test)
+			os.MkdirAll(j.cwd, 0755)
+			j.raw = j.cwd + ".raw"
+			ctx, cancel := context.WithTimeout(context.Background(), limit)
+			defer cancel()
+			cmd := exec.CommandContext(ctx, bin, "-test.count=1", "-test.timeout=600s", "-test.run", "^"+j.test+"$",
+				"-consensus", j.consensus, "-loglevel", "CRITICAL", "-npins", rootPins)
+			cmd.Dir = j.cwd
+			cmd.Env = append(os.Environ(), "VERIF_TRACE_FILE="+j.raw)
+			t0 := time.Now()
+			out, err := cmd.CombinedOutput()
+			j.secs = time.Since(t0).Seconds()
+			switch {
+			case ctx.Err() != nil:
+				j.note = fmt.Sprintf("%s/%s stopped after %.0fs (its execution so far is validated)", j.test, j.consensus, j.secs)
+			case err != nil:
+				j.note = fmt.Sprintf("%s/%s failed (not a verdict of this check; its execution is validated): %s", j.test, j.consensus, tail(string(out), 200))
+			}
+			os.RemoveAll(j.cwd)
+		}(j)
+	}
+	wg.Wait()
+	nt, nev, ncut, nrep, nfull, nskip, nfail := 0, 0, 0, 0, 0, 0, 0
+	for _, j := range jobs {
+		if j.note != "" {
+			notes = append(notes, j.note)
+		}
+		recs, note := readRaw(j.raw)
+		os.Remove(j.raw)
+		if note != "" {
+			notes = append(notes, j.test+"/"+j.consensus+": "+note)
+		}
+		if len(recs) == 0 {
+			continue
+		}
+		by, order, err := split(recs)
+		if err != nil {
+			notes = append(notes, j.test+"/"+j.consensus+": trace unusable: "+err.Error())
+			continue
+		}
+		for _, k := range order {
+			st := w.trace("root:"+j.test+":"+j.consensus, k, by[k])
+			nt++
+			nev += st.events
+			nrep += st.replaced
+			nfull += st.fullq
+			nskip += st.skipped + st.abandoned
+			nfail += st.failed
+			if st.events >= rootMaxEvents {
+				ncut++
+			}
+		}
+		res.Case(rec{"source": "root package test " + j.test, "consensus": j.consensus, "trackers": len(order), "seconds": int(j.secs)}, true)
+	}
+	res.Set("optrace_root_processes", len(jobs))
+	res.Set("optrace_root_traces", nt)
+	res.Set("optrace_root_events", nev)
+	res.Set("optrace_root_traces_cut_at_cap", ncut)
+	res.Set("optrace_root_cancel_and_replace", nrep)
+	res.Set("optrace_root_queue_full", nfull)
+	res.Set("optrace_root_skipped_or_abandoned", nskip)
+	res.Set("optrace_root_failed_calls", nfail)
 }
 
 func tail(s string, n int) string {
@@ -517,6 +665,9 @@ func TestDriver(t *testing.T) {
 
 	if os.Getenv("OPTRACE_SKIP_REPO") == "" {
 		repoTests(res, w, os.Getenv("VERIF_WORK"))
+	}
+	if mode := os.Getenv("OPTRACE_ROOT"); mode != "" && mode != "off" {
+		rootTests(res, w, os.Getenv("VERIF_WORK"), mode)
 	}
 
 	// (b): rounds run one after the other (tracker numbers are claimed right after New), each is concurrent inside
